@@ -10,6 +10,7 @@ package socks5
 //@   ensures result == 7 || result == 19
 
 //@ func LengthOfAddrFromConnAddr
+//@   inline
 //@   requires conn.AddrWF(addr)
 //@   modifies nothing
 //@   ensures result >= 5 && result <= 259
@@ -17,12 +18,12 @@ package socks5
 
 //@ func WriteAddrFromAddrPort
 //@   requires len(b) >= LengthOfAddrFromAddrPort(addrPort)
-//@   modifies b[0:19]
+//@   modifies b[0:len(b)]
 //@   ensures n == LengthOfAddrFromAddrPort(addrPort)
 
 //@ func WriteAddrFromConnAddr
 //@   requires conn.AddrWF(addr) && len(b) >= LengthOfAddrFromConnAddr(addr)
-//@   modifies b[0:259]
+//@   modifies b[0:len(b)]
 //@   ensures result == LengthOfAddrFromConnAddr(addr)
 
 //@ func AppendAddrFromConnAddr
